@@ -19,7 +19,7 @@ type mnode struct {
 	Mod  bool    `json:"mod,omitempty"`
 }
 
-var leafKinds = []string{"ok", "keyed", "dup", "bad", "rm", "rmk", "nil"}
+var leafKinds = []string{"ok", "keyed", "dup", "bad", "rm", "rm1", "rmk", "nil"}
 
 // forests(n, d): all ordered forests with exactly n leaves and module nesting <= d.
 func forests(n, d int) [][]mnode {
@@ -106,6 +106,9 @@ func (r *c20Run) leaf(kind string) (godi.ModuleOption, func(c godi.Collection) e
 		return add(mkReg("D0", "x", "g")) // name + group: invalid option combination
 	case "rm":
 		return godi.Remove[*kit.P0](), func(c godi.Collection) error { c.Remove(kit.TypeOf("P0")); return nil }
+	case "rm1":
+		// P1 only ever has keyed registrations: Remove (unkeyed) must leave them alone
+		return godi.Remove[*kit.P1](), func(c godi.Collection) error { c.Remove(kit.TypeOf("P1")); return nil }
 	case "rmk":
 		return godi.RemoveKeyed[*kit.P1]("k1"), func(c godi.Collection) error { c.RemoveKeyed(kit.TypeOf("P1"), "k1"); return nil }
 	}
@@ -318,7 +321,7 @@ func c20Enumerate(r *mc.Report, n, depth, shard, nshards int) {
 func init() {
 	mc.Register(&mc.Check{
 		Prop:        "C20",
-		Rule:        "all module trees (ordered forests passed to AddModules) with <=3 leaves at module nesting <=3 and 4 leaves at nesting <=1 (quick); 4 leaves at nesting <=3 and 5 leaves at nesting <=2 (thorough); every leaf drawn from {Add ok, Add keyed ok, Add duplicating, Add with an invalid option combination, Remove, RemoveKeyed, nil entry}: a twin collection receives the flattened calls directly, stopping at the first failure; compared: deep dumps of both collections, Contains/ContainsKeyed/Count/ToSlice, Build verdict and the answers of the whole identity universe of both providers, building a module from a caller-owned slice leaves the slice unchanged; and the error chain (exactly one ModuleError per enclosing module, outermost first, then the direct call's error; same errors.Is/As classes). distinct = (position of the failing leaf, error class, number of modules) classes.",
+		Rule:        "all module trees (ordered forests passed to AddModules) with <=3 leaves at module nesting <=3 and 4 leaves at nesting <=1 (quick); 4 leaves at nesting <=3 and 5 leaves at nesting <=2 (thorough); every leaf drawn from {Add ok, Add keyed ok, Add duplicating, Add with an invalid option combination, Remove of an unkeyed type, Remove of a type that only has keyed registrations, RemoveKeyed, nil entry}: a twin collection receives the flattened calls directly, stopping at the first failure; compared: deep dumps of both collections, Contains/ContainsKeyed/Count/ToSlice, Build verdict and the answers of the whole identity universe of both providers, building a module from a caller-owned slice leaves the slice unchanged; and the error chain (exactly one ModuleError per enclosing module, outermost first, then the direct call's error; same errors.Is/As classes). distinct = (position of the failing leaf, error class, number of modules) classes.",
 		Assume:      []string{"both collections register the very same function values, so dumps are comparable without renaming"},
 		MinOutcomes: 5,
 		Jobs: func(tier string) []mc.Job {
